@@ -56,6 +56,8 @@ def run_driver(which, cmds, timeout=1800):
 
 def target_of(cmd):
     w = cmd.split()
+    if w[0] == "cost":
+        return "N"      # measured on the implementation only (the list-based extracted model is quadratic on long blocks)
     if w[0] in ("enc_int", "dec_int", "henc", "hdec", "tnew", "tadd", "tset", "tget", "tsearch"):
         return w[1]
     return "M"
@@ -66,6 +68,7 @@ def target_of(cmd):
 def compare_line(cmd, impl, other, target):
     """None when `other` (model/gen/spec output) agrees with the implementation's line"""
     w = cmd.split()
+    impl = impl.split(" | TY ")[0]          # object types are C17's business only
     if target == "S" and w[0] == "dec_int":
         # the specification has no limit on continuation octets: C11's latitude
         if other == "none":
@@ -74,7 +77,8 @@ def compare_line(cmd, impl, other, target):
         if int(k, 16) - 1 <= 20:
             return None if impl == other else "spec %s, impl %s" % (other, impl)
         return None if impl in (other, "err:HPACKDecodingError") else "spec %s (over-long), impl %s" % (other, impl)
-    if w[0] in ("ddec", "pipe"):
+    impl = impl.split(" | RC ")[0].split(" | COST ")[0]
+    if w[0] in ("ddec", "pipe", "ddecb", "cost"):
         m = other.split(" | S ")[0]
         return None if impl == m else "model %s, impl %s" % (m, impl)
     if w[0] == "tspec":
@@ -139,6 +143,20 @@ def oracles(case, impl, model):
     for i, cmd in enumerate(cmds):
         w = cmd.split()
         line = impl[i]
+        if " | TY " in line:
+            line, ty = line.split(" | TY ")
+            out.append(("C17", "after `%s` a table entry or returned field is a %s, not an owned bytes/str object"
+                        % (cmd[:120], ty)))
+        if " | COST " in line:
+            line = line.split(" | COST ")[0]
+        if " | RC " in line:
+            line, rc = line.split(" | RC ")
+            delta, resize = rc.split()
+            if int(delta) != 0:
+                out.append(("C17", "after `%s` the reference count of the caller's buffer changed by %s (something retains it)"
+                            % (cmd[:120], delta)))
+            if resize == "BufferError":
+                out.append(("C17", "after `%s` the caller's bytearray can no longer be resized (a buffer export is retained)" % cmd[:120]))
         res = line.split(" ")[0]
         # ---- C06: table accounting and bound, after every call of every history
         st = parse_state(line)
@@ -148,8 +166,6 @@ def oracles(case, impl, model):
                 out.append(("C06", "accounting %d != sum of entry sizes %d after `%s`" % (st["cur"], size, cmd)))
             if size > max(0, st["max"]):
                 out.append(("C06", "table size %d exceeds maximum %d after `%s`" % (size, st["max"], cmd)))
-            if any("!" in n or "!" in v for n, v in st["ent"]):
-                out.append(("C17", "table entry is not an owned bytes object after `%s`: %s" % (cmd, line)))
             key = w[1] if w[0][0] in "ed" or w[0] == "pipe" else (w[2] if len(w) > 2 else None)
             if w[0] == "pipe":
                 key = w[2]
@@ -183,7 +199,7 @@ def oracles(case, impl, model):
                 out.append(("C11", "decode_integer raised %s" % res))
                 out.append(("C04", "decode_integer raised %s" % res))
         # ---- C04 / C16 on every decode call
-        if w[0] in ("ddec", "pipe") and res.startswith("err:") and res[4:] not in DOCUMENTED:
+        if w[0] in ("ddec", "pipe", "ddecb") and res.startswith("err:") and res[4:] not in DOCUMENTED:
             out.append(("C04", "decode raised %s on `%s`" % (res[4:], cmd[:200])))
             if res == "err:TIMEOUT":
                 out.append(("C16", "decode did not finish within the per-call time limit on `%s`" % cmd[:200]))
@@ -250,6 +266,66 @@ def oracles(case, impl, model):
         out += _oracle_huff(case, impl)
     if fam == "pair":
         out += _oracle_pair(case, impl, model)
+    if fam == "api":
+        out += _oracle_api(case, impl)
+    if fam == "cost":
+        out += _oracle_cost(case, impl)
+    return out
+
+
+def _oracle_cost(case, impl):
+    """C16: the same input shape at lengths n, 2n, 4n: executed lines grow linearly, integers
+    are never accumulated beyond 20 continuation octets, helpers get memoryview slices, and
+    (support) CPU time grows linearly"""
+    out = []
+    rows = []
+    for cmd, line in zip(case["cmds"], impl):
+        if " | COST " not in line:
+            continue
+        kv = dict(x.split("=", 1) for x in line.split(" | COST ")[1].split())
+        rows.append((len(cmd.split()[3]) // 2, int(kv["lines"]), int(kv["maxshift"]), kv["argtypes"], float(kv["t"]), int(kv.get("copied", 0))))
+        if line.startswith("err:TIMEOUT"):
+            out.append(("C16", "decoding did not finish within the time limit for shape %s at %d octets" % (case["meta"]["shape"], rows[-1][0])))
+    shape = case["meta"]["shape"]
+    for n, lines, maxshift, argtypes, t, copied in rows:
+        if maxshift > 7 * 20:
+            out.append(("C16", "shape %s: decode_integer accumulated up to shift %d (> 140) at %d octets: over-long integers are not refused"
+                        % (shape, maxshift, n)))
+        if copied > 4 * n + 2000:
+            out.append(("C16", "shape %s: the helpers were handed copies of the rest of the block (%d octets copied for a block of %d; argument types %s): quadratic in the number of fields"
+                        % (shape, copied, n, argtypes)))
+    if len(rows) == 3:
+        (n1, l1, _, _, t1, _), (_, l2, _, _, t2, _), (n4, l4, _, _, t4, _) = rows
+        if l4 > 4.6 * l1 + 200:
+            out.append(("C16", "shape %s: executed lines grow faster than linearly: %d lines at %d octets, %d at %d" % (shape, l1, n1, l4, n4)))
+        if t1 > 0.003 and t4 > 9.0 * t1 and t4 > 2.6 * t2:
+            out.append(("C16", "shape %s: CPU time grows faster than linearly: %.4fs at %d octets, %.4fs at %d, %.4fs at %d"
+                        % (shape, t1, n1, t2, 2 * n1, t4, n4)))
+    return out
+
+
+def _oracle_api(case, impl):
+    """C18: interchangeable forms give identical output and state; raw/text modes agree"""
+    out = []
+    clean = [l.split(" | TY ")[0] for l in impl]
+    for g in case["meta"]["groups"]:
+        ref = clean[g[0]]
+        for i in g[1:]:
+            if clean[i] != ref:
+                out.append(("C18", "forms differ: `%s` gives %s but `%s` gives %s"
+                            % (case["cmds"][g[0]][:150], ref[:120], case["cmds"][i][:150], clean[i][:120])))
+    for a, b in case["meta"]["twins"]:
+        ra, rb = clean[a], clean[b]
+        sa, sb = ra[ra.index(" T max="):], rb[rb.index(" T max="):]
+        if sa != sb:
+            out.append(("C18", "raw and text decoding leave different state on `%s`" % case["cmds"][a][:150]))
+        fa, fb = ra.split(" ")[0], rb.split(" ")[0]
+        if fb.startswith("ok:") and fa != fb:
+            out.append(("C18", "raw and text decoding return different fields on `%s`" % case["cmds"][a][:150]))
+        if fb.startswith("err:") and fa.startswith("ok:") and fb != "err:HPACKDecodingError":
+            out.append(("C18", "text mode fails with %s where raw mode succeeds" % fb))
+        if fa.startswith("err:") and fa != fb:
+            out.append(("C18", "raw mode %s but text mode %s" % (fa, fb)))
     return out
 
 
@@ -290,7 +366,7 @@ def _oracle_pair(case, impl, model):
     in_force = None
     for i, cmd in enumerate(cmds):
         w = cmd.split()
-        line = impl[i]
+        line = impl[i].split(" | TY ")[0]
         res = line.split(" ")[0]
         if w[0] == "enew":
             enc_before = parse_state(line)
@@ -298,11 +374,12 @@ def _oracle_pair(case, impl, model):
         if w[0] == "eset":
             enc_before = parse_state(line)
         if w[0] == "eenc":
+            if bi >= len(blocks):
+                break
             b = blocks[bi]
             st = parse_state(line)
             if not res.startswith("ok:"):
                 out.append(("C03", "encode raised %s" % res))
-                bi += 1
                 enc_before = st
                 continue
             data = unhex(res[3:])
@@ -363,6 +440,8 @@ def _oracle_pair(case, impl, model):
             enc_before = st
             in_force = st["max"] if st else None
         if w[0] == "pipe":
+            if bi >= len(blocks):
+                break
             b = blocks[bi]
             bi += 1
             if res == "skip":
@@ -448,4 +527,96 @@ def run_cases(cases, want_gen=True):
         for pid, msg in oracles(c, il, ml if any(ol) else None):
             res["oracle"].append({"case": ci, "property": pid, "what": msg})
         pos += n
+    return res
+
+
+# ------------------------------------------------------------------ C20: isolation and determinism on the real implementation
+
+def run_world(rnd, n_cases, deep=False):
+    """The same per-instance histories run (a) one case after the other, (b) interleaved in one
+    process, (c) interleaved with logging at DEBUG, (d) under other PYTHONHASHSEED values,
+    (e) a sample of cases each alone in a fresh process.  Every line of every instance must be
+    identical in all runs, and the digest of the shared objects must never change.
+    -> dict(evaluations, cases, failures=[{what, case}], samples)"""
+    import gens
+    per = max(1, n_cases // 5)
+    cases = (gens.gen_pair(rnd, per) + gens.gen_dec(rnd, per) + gens.gen_table(rnd, max(1, per // 3))
+             + gens.gen_api(rnd, per) + gens.gen_prov(rnd, per))
+    # G-target commands address a second table object on the implementation side: keep them, they are instances too
+    iso, owner_iso = ["snapshot"], [None]
+    for ci, c in enumerate(cases):
+        for k, cmd in enumerate(c["cmds"]):
+            iso.append(cmd)
+            owner_iso.append((ci, k))
+    iso.append("snapshot")
+    owner_iso.append(None)
+    # round-robin interleaving with random strides
+    pos = [0] * len(cases)
+    inter, owner_int = ["snapshot"], [None]
+    live = [i for i in range(len(cases)) if cases[i]["cmds"]]
+    while live:
+        ci = rnd.choice(live)
+        for _ in range(rnd.choice([1, 1, 2, 3])):
+            if pos[ci] < len(cases[ci]["cmds"]):
+                inter.append(cases[ci]["cmds"][pos[ci]])
+                owner_int.append((ci, pos[ci]))
+                pos[ci] += 1
+        if pos[ci] >= len(cases[ci]["cmds"]):
+            live.remove(ci)
+    inter.append("snapshot")
+    owner_int.append(None)
+
+    def norm(l):
+        return l.split(" | RC ")[0]      # reference-count deltas are not outputs
+
+    res = {"evaluations": 0, "cases": len(cases), "failures": [], "errors": [],
+           "samples": [{"interleaving_head": inter[:10]}]}
+    runs = {}
+    plan = [("isolated", iso, owner_iso, "0", {}), ("interleaved", inter, owner_int, "0", {}),
+            ("interleaved+DEBUG", inter, owner_int, "0", {"HV_LOG": "DEBUG"}),
+            ("interleaved+hashseed1", inter, owner_int, "1", {}),
+            ("interleaved+hashseed-random", inter, owner_int, "random", {})]
+    if deep:
+        plan.append(("isolated+hashseed12345+DEBUG", iso, owner_iso, "12345", {"HV_LOG": "DEBUG"}))
+    for name, cmds, owner, hs, env in plan:
+        lines, err = run_impl(cmds, hashseed=hs, extra_env=env)
+        if err or len(lines) != len(cmds):
+            res["errors"].append("%s: %s" % (name, err or "line count"))
+            continue
+        res["evaluations"] += len(cmds)
+        table = {}
+        snaps = []
+        for o, l in zip(owner, lines):
+            if o is None:
+                snaps.append(l)
+            else:
+                table[o] = norm(l)
+        runs[name] = (table, snaps)
+    if "isolated" not in runs:
+        return res
+    ref, ref_snaps = runs["isolated"]
+    for name, (table, snaps) in runs.items():
+        if len(set(snaps + ref_snaps)) != 1:
+            res["failures"].append({"what": "the digest of the shared objects (static table, mapping, Huffman tables, module namespaces) changed: %s in run `%s`"
+                                            % (snaps + ref_snaps, name), "case": {"family": "world", "cmds": inter[:400], "meta": {}, "tags": []}})
+        for key, l in table.items():
+            if ref.get(key) != l:
+                ci, k = key
+                res["failures"].append({"what": "instance output differs between the isolated run and `%s`: command `%s` gave %s vs %s"
+                                                % (name, cases[ci]["cmds"][k][:150], (ref.get(key) or "")[:150], l[:150]),
+                                        "case": {"family": "world", "cmds": inter[:600], "meta": {"run": name}, "tags": []}})
+                break
+    # a sample of cases each alone in a fresh process ("instances used earlier do not matter")
+    for ci in rnd.sample(range(len(cases)), min(len(cases), 25 if deep else 6)):
+        lines, err = run_impl(cases[ci]["cmds"])
+        if err:
+            res["errors"].append(err)
+            continue
+        res["evaluations"] += len(lines)
+        for k, l in enumerate(lines):
+            if norm(l) != ref[(ci, k)]:
+                res["failures"].append({"what": "a case run alone in a fresh process differs from the same case run after other instances: `%s` gave %s vs %s"
+                                                % (cases[ci]["cmds"][k][:150], norm(l)[:150], ref[(ci, k)][:150]),
+                                        "case": {"family": "world", "cmds": iso[:600], "meta": {}, "tags": []}})
+                break
     return res
